@@ -17,11 +17,11 @@ CHECK = {
         # (a) OutputHierarchy against the in-memory tree.
         T("outputs", "TestC10OutputHierarchyModel",
           {"checks": 30000, "shards": 4, "timeout": 300},
-          {"checks": 600000, "shards": 6, "timeout": 1500}),
+          {"checks": 400000, "shards": 6, "timeout": 1500}),
         # (a') construction accept/reject and normalised parents only.
         T("outputs", "TestC10PathEscapeDifferential",
           {"checks": 60000, "shards": 2, "timeout": 300},
-          {"checks": 1500000, "shards": 2, "timeout": 1500}),
+          {"checks": 1000000, "shards": 2, "timeout": 1500}),
         T("outputs", "TestC10PathEscapeExhaustive",
           {"checks": 1, "shards": 1, "timeout": 300},
           {"checks": 1, "shards": 1, "timeout": 600}),
@@ -29,20 +29,20 @@ CHECK = {
         # the input root when it is invoked).
         T("outputs", "TestC10LocalBuildExecutor",
           {"checks": 4000, "shards": 2, "timeout": 300},
-          {"checks": 100000, "shards": 4, "timeout": 1500}),
+          {"checks": 60000, "shards": 4, "timeout": 1500}),
         # (c) real build directory implementations as holders of the tree.
         T("outputs", "TestC10VirtualBuildDirectory",
           {"checks": 8000, "shards": 2, "timeout": 300},
-          {"checks": 200000, "shards": 2, "timeout": 1500}),
+          {"checks": 150000, "shards": 2, "timeout": 1500}),
         T("outputs", "TestC10LocalBuildExecutorVirtual",
           {"checks": 3000, "shards": 2, "timeout": 300},
-          {"checks": 60000, "shards": 4, "timeout": 1500}),
+          {"checks": 40000, "shards": 4, "timeout": 1500}),
         T("outputs", "TestC10NaiveBuildDirectory",
           {"checks": 400, "shards": 2, "timeout": 300},
-          {"checks": 15000, "shards": 4, "timeout": 1500}),
+          {"checks": 10000, "shards": 4, "timeout": 1500}),
         T("outputs", "TestC10LocalBuildExecutorNaive",
           {"checks": 200, "shards": 2, "timeout": 300},
-          {"checks": 8000, "shards": 4, "timeout": 1500}),
+          {"checks": 5000, "shards": 4, "timeout": 1500}),
     ],
 }
 META = {
